@@ -270,6 +270,12 @@ def finish(ctx, level="other", explanation="", rule_text="", checker_cmd=None, e
         "notes": ctx.notes,
         "fact_configs": sorted(ctx._facts.keys()),
     }
+    # what the helper-expansion / anchor-aliasing pre-pass did to the facts of this tree (rules/inline.py)
+    pre = {}
+    for lbl, fx in ctx._facts.items():
+        if getattr(fx, "inlined", None) or getattr(fx, "inline_notes", None):
+            pre[lbl] = {"helpers_expanded_into": {h: sorted(set(c)) for h, c in fx.inlined.items()}, "notes": list(fx.inline_notes)[:20]}
+    cov["pre_pass"] = pre or "no helper outside the anchored functions; no anchor renamed"
     if extra_cov:
         cov.update(extra_cov)
     cov.update(ctx.extra)
